@@ -294,7 +294,7 @@ def free_run(work, binp, seed, tier):
     for p, tr, rp, eng in procs:
         out, _ = p.communicate()
         if p.returncode != 0 or not os.path.exists(rp):
-            raise Undecided("free-running driver failed (rc=%s): %s" % (p.returncode, (out or "")[-2000:]))
+            raise Undecided("free-running driver failed (rc=%s): %s\n%s" % (p.returncode, (out or "")[-2000:], crash_tail(work)))
         traces.append(tr)
         r = json.load(open(rp))
         r["engine"] = eng
